@@ -186,6 +186,36 @@ def main(argv):
     finally:
         shutil.rmtree(tmp, ignore_errors=True)
 
+    # ---- native points (hash-order effects are invisible under CrossHair) ---------
+    native_runs = 0
+    native_viol = []
+    for ob in ch_obs:
+        if not getattr(ob, "native_points", 0) or ob.expect != "confirm":
+            continue
+        rnd2 = random.Random(seed * 7919 + len(ob.name))
+        pts = []
+        names = list(ob.sym)
+
+        def pick(mode):
+            d = {}
+            for a in names:
+                sp = ob.sym[a]
+                if sp[0] == "bool":
+                    d[a] = {"lo": False, "hi": True, "mid": True}.get(mode, rnd2.random() < 0.5)
+                elif sp[0] == "int":
+                    d[a] = {"lo": sp[1], "hi": sp[2], "mid": (sp[1] + sp[2]) // 2}.get(mode, rnd2.randint(sp[1], sp[2]))
+                else:
+                    d[a] = {"lo": sp[1], "hi": sp[2], "mid": (sp[1] + sp[2]) / 2}.get(mode, rnd2.uniform(sp[1], sp[2]))
+            return d
+        for mode in ["lo", "hi", "mid"] + ["rnd"] * max(0, ob.native_points - 3):
+            pts.append({**pick(mode), **ob.fixed})
+        res_n = native_replay({"property": pid, "kind": "points", "harness": ob.harness, "args_list": pts}, timeout=600)
+        native_runs += len(pts)
+        if res_n is None:
+            machinery_pre = f"{ob.name}: native points failed to run"
+            print("MACHINERY-ERROR:", machinery_pre)
+        elif res_n:
+            native_viol.append((ob, res_n))
     # ---- interpret ------------------------------------------------------------
     violations = []
     machinery = []
@@ -274,6 +304,11 @@ def main(argv):
         for ob in spec.obligations:
             r = results.get(ob.name, {})
             print(f"  [{ob.name}] {r.get('status')} paths={r.get('paths')} cpu={r.get('wall_s')}s {str(r.get('detail',''))[:200]}")
+    for ob, res_n in native_viol:
+        rs = {"property": pid, "kind": "ch", "harness": ob.harness, "args": res_n["failing_args"], "obligation": ob.name,
+              "found_by": "native run on a concrete point of the symbolic box"}
+        if not any(res_n["result"].startswith(pf) for pf in known_prefixes.get(ob.name, [])):
+            violations.append((ob, rs, res_n["result"], {}))
     # ---- report ---------------------------------------------------------------
     rc = 0
     seen_v = set()
@@ -311,7 +346,7 @@ def main(argv):
                      "feasibility of every branch decided by z3) + SMT queries issued by the kernel obligations; a case is one "
                      "obligation (one CrossHair condition over a symbolic input box for one concrete partition, or one kernel "
                      "query); distinct_nontrivial = obligations discharged + reachability twins whose target branch was shown reachable"),
-            "obligations": n_oblig, "discharged": discharged,
+            "obligations": n_oblig, "discharged": discharged, "native_point_runs": native_runs,
             "inconclusive": inconclusive, "paths": total_paths, "smt_queries": smt_queries,
             "reachability_twins_fired": nontrivial if not kn_obs else None,
             "functions_encoded": spec.functions, "bounds": spec.bounds, "outside_claim": spec.outside,
